@@ -9,6 +9,9 @@ use serde_json::{json, Value};
 
 /// 1-, 2-, 3- and 4-byte characters; several share UTF-8 lead / continuation bytes.
 pub const ALPHABET: &[char] = &['a', 'é', 'ê', '☃', '☄', '😀', '😁', '𝄞'];
+/// A second alphabet: characters that share *continuation* bytes under different lead bytes
+/// (C2 A9 / C3 A9; E3 81 82 / E3 82 82; E2 98 83 / E3 98 83; F1.. / F2.. with equal tails).
+pub const ALPHABET2: &[char] = &['©', 'é', 'ª', 'あ', 'も', '\u{3603}', '\u{5F600}', '\u{9F600}'];
 
 fn strings(maxlen: usize) -> Vec<Vec<usize>> {
     let mut all: Vec<Vec<usize>> = vec![vec![]];
@@ -28,8 +31,12 @@ fn strings(maxlen: usize) -> Vec<Vec<usize>> {
     all
 }
 
+thread_local! {
+    static WHICH: std::cell::Cell<u8> = std::cell::Cell::new(1);
+}
 fn text(s: &[usize]) -> String {
-    s.iter().map(|&c| ALPHABET[c - 1]).collect()
+    let a = if WHICH.with(|w| w.get()) == 1 { ALPHABET } else { ALPHABET2 };
+    s.iter().map(|&c| a[c - 1]).collect()
 }
 
 fn is_match(lev: &Levenshtein, k: &str) -> bool {
@@ -41,6 +48,15 @@ fn is_match(lev: &Levenshtein, k: &str) -> bool {
 }
 
 pub fn c17(log: &mut Log, seed: u64, tier: &str) {
+    WHICH.with(|w| w.set(1));
+    c17_with(log, seed, tier, true);
+    // the same scope over the second alphabet (TLC's judgement only depends on character equality)
+    WHICH.with(|w| w.set(2));
+    c17_with(log, seed + 1, tier, false);
+    WHICH.with(|w| w.set(1));
+}
+
+fn c17_with(log: &mut Log, seed: u64, tier: &str, limits: bool) {
     let thorough = tier == "thorough";
     let mut r = rng(seed, 17);
     let qs = strings(if thorough { 3 } else { 2 });
@@ -94,7 +110,7 @@ pub fn c17(log: &mut Log, seed: u64, tier: &str) {
         }
     }
     // state limits from 1 upward
-    for q in qs.iter().filter(|q| q.len() <= 2).step_by(if thorough { 1 } else { 5 }) {
+    for q in qs.iter().filter(|q| limits && q.len() <= 2).step_by(if thorough { 1 } else { 5 }) {
         for d in 0..=2u32 {
             let mut limits: Vec<usize> = (1..=12).collect();
             limits.extend(vec![16, 24, 32, 48, 64, 100, 200, 1000, 10000]);
